@@ -65,6 +65,7 @@ class Sim:
             self.pw_prefix = b'L' * 64 + self.pw_prefix
         self.printed = []             # stdout of init / add-key (what a user would see or save)
         self.plain = None             # C05: needle bookkeeping
+        self.secret_names = []        # C05: file names that never made it into a registered snapshot
         self.cache_dir = None
         if cfg.get('cache', 'none') != 'none':
             self.cache_dir = os.path.join(self.work, 'cache')
@@ -365,6 +366,50 @@ class Sim:
                             f'{len(uploads)} chunk payload(s)', uploads=uploads[:5])
             if [d for d in self._table(s)] != [d for d in self._table(prior[-1])]:
                 return fail('table-differs', 'chunk table of a repeated snapshot differs from the earlier one')
+        return None
+
+    def op_vanishing_snapshot(self, op):
+        """A file disappears after the file list was collected and before its turn to be read (files are read smallest first, the
+        queue between the reader and the uploaders holds 10 x concurrency chunks): the command may fail, or go on without it."""
+        u = self.user(op['user'])
+        src, model = self._write_fileset(0, op['files'])
+        mx = self.cfg['settings']['chunking']['max_length']
+        filler = (12 * self.n + 6) * mx
+        real = os.path.realpath(src)
+        name = 'zz-VanishingSecretName-%d.doc' % self.step
+        extra = [{'path': 'zy-filler.bin', 'content': [['r', 8100 + self.step, filler]], 'mtime_ns': 1_500_000_000_000_000_901},
+                 {'path': name, 'content': [['r', 8200 + self.step, filler + 1]], 'mtime_ns': 1_500_000_000_000_000_902}]
+        world.write_tree(src, extra)
+        for e in extra:
+            model[os.path.join(real, e['path'])] = (world.content(e['content']), e['mtime_ns'])
+        self.secret_names.append(name)
+        victim = os.path.join(real, name)
+        state = {'done': False}
+
+        def pred(o, n_):
+            if not state['done'] and str(n_).startswith('data/'):
+                state['done'] = True
+                try:
+                    os.unlink(victim)
+                except OSError:
+                    pass
+            return None
+        note = (self.cfg.get('note_prefix', 'note-') + str(self.step)) if op.get('note') else None
+        self.store.fail_pred = pred
+        self.events.add('file-vanishes-during-snapshot')
+        try:
+            res, _ = self.run(self._snapshot_coro(u, 0, src, note, None))
+        except Exception:
+            self.events.add('vanish:snapshot-failed')
+            return None
+        finally:
+            self.store.fail_pred = None
+        self.events.add('vanish:snapshot-went-through')
+        sn = self.reader(u).read_snapshot(res.location, self.store.objects[res.location])
+        recorded = {f['path'] for f in sn['data']['files']}
+        model = {p_: v for p_, v in model.items() if p_ in recorded}
+        s = self._register_snapshot(u, res, model, note, ('vanishing', self.step))
+        s.op_files, s.op_bulk = op['files'], 0
         return None
 
     def _table(self, s):
@@ -916,6 +961,8 @@ def make_machine(prop, tier, ctx, *, checks, encrypted=None, weights=None, extra
         lambda u, v, c: {'op': 'cross_restore', 'user': u, 'victim': v, 'client': c})
     add('unlock_wrong', w['unlock_wrong'], dict(u=small, o=small, h=st.integers(0, 2), v=st.integers(0, 3)),
         lambda u, o, h, v: {'op': 'unlock_wrong', 'user': u, 'other': o, 'how': h, 'variant': v})
+    add('vanishing_snapshot', w.get('vanish', 0), dict(u=small, f=fileset, n=st.booleans()),
+        lambda u, f, n: {'op': 'vanishing_snapshot', 'user': u, 'files': f, 'note': n})
     add('neighbour', w.get('neighbour', 1), dict(k=small), lambda k: {'op': 'neighbour', 'what': k})
     add('plant', w['plant'], dict(u=small, k=st.sampled_from(['orphans', 'foreign']), n=small, s=st.integers(0, 999)),
         lambda u, k, n, s: {'op': 'plant', 'user': u, 'kind': k, 'n': n, 'seed': s})
